@@ -3,6 +3,8 @@ import hashlib, json, os, shutil, sys, tempfile, time, traceback
 from . import tlc
 
 ROOT = os.path.dirname(os.path.dirname(os.path.abspath(__file__)))
+# evidence and replay files go to /verif unless redirected (used when a check is tried against a scratch worktree with a seeded change)
+OUT = os.environ.get('VERIF_OUT', ROOT)
 PY = '/venv/bin/python'
 GUARD = 'PHOTUTILS_VERIF'
 
@@ -86,7 +88,7 @@ class Ctx:
     def finish(self):
         from . import findings
         known = findings.load()
-        rep_dir = os.path.join(ROOT, 'replays', self.pid)
+        rep_dir = os.path.join(OUT, 'replays', self.pid)
         new = []
         printed = set()
         nknown = 0
@@ -131,8 +133,8 @@ class Ctx:
             },
             'assumptions': self.assumptions, 'wall_s': round(time.time() - self.t0, 2), 'violations': len(paths),
         }
-        os.makedirs(os.path.join(ROOT, 'evidence'), exist_ok=True)
-        with open(os.path.join(ROOT, 'evidence', f'{self.pid}.json'), 'w') as f:
+        os.makedirs(os.path.join(OUT, 'evidence'), exist_ok=True)
+        with open(os.path.join(OUT, 'evidence', f'{self.pid}.json'), 'w') as f:
             json.dump(ev, f, indent=1, default=str)
         shutil.rmtree(self.tmp, ignore_errors=True)
         print(f"{self.pid} {self.tier}: states={self.states} transitions={self.transitions} impl_traces={self.traces} "
